@@ -100,6 +100,9 @@ class Teardown:
             eng.violate("UNW-1", "moveout-in-cleanup:%s" % f, "an unwinding continuation moves `%s` out of %s" % (f, show(b)), ev.b, st)
         if ev.how == "copy" and ev.get("dst") is not None and box_part(ev.dst) is not None:
             return add(st, ("xfer", b, f, box_part(ev.dst)[0]))
+        if ev.how == "copy" and ev.get("dst") is not None:
+            # bytes copied into a local (e.g. a MaybeUninit<T> temporary): the contents now live there
+            return add(st, ("mv", b, f, mk_deref(ev.dst)))
         return add(st, ("mv", b, f, ev.res))
 
     def _consume(self, eng, ev, st, v, user):
@@ -146,7 +149,15 @@ class Teardown:
         return None
 
     def on_fill(self, eng, ev, st):
-        return add(st, ("filled", ev.box, ev.field))
+        st = add(st, ("filled", ev.box, ev.field))
+        # contents read out of one box and written into another: transferred, not pending any more
+        src = ev.get("src")
+        if src is not None:
+            hit = [fl for fl in st.flags if fl[0] == "mv" and (src == fl[3] or sub(src, fl[3]))]
+            if hit:
+                st = rem(st, lambda g: g in hit)
+                st = add(st, *[("xfer", fl[1], fl[2], ev.box) for fl in hit])
+        return st
 
     def on_handle_drop(self, eng, ev, st):
         # TS-6: a strong handle whose drop would destroy the value may only exist (be dropped) for a box
@@ -224,6 +235,9 @@ class Teardown:
         if ("freed", b) in st.flags:
             eng.violate("TS-4", "double-free", "%s is freed twice on one path" % show(b), ev.b, st)
         if is_box_ptr(b, eng):
+            lay = ev.get("layout")
+            if lay is not None and not layout_of_box(lay, b):
+                eng.violate("TS-4", "free-with-foreign-layout", "%s is deallocated with a layout (%s) that is not the layout of its RcBox allocation" % (show(b), show(lay)[:100]), ev.b, st)
             if ("wz", b) not in st.flags:
                 eng.violate("TS-4", "free-without-weak-zero", "%s is freed on a path that has not observed its weak count at zero after the last change" % show(b), ev.b, st)
             elif ("decw", b) not in st.flags:
@@ -246,6 +260,18 @@ class Teardown:
             elif fl[0] == "must_dec":
                 eng.violate("TS-1", "extract-without-lowering", "the value of %s is moved out under strong == 1 but the count is not lowered on this path" % show(fl[1]), ev.b, st)
         return None
+
+
+def layout_of_box(lay, box):
+    """Layout::for_value_raw(box) / Layout::for_value(&*box) / Layout::new::<RcBox<_>>() (the latter cannot be
+    told apart from other `Layout::new` calls at expression level and is accepted)."""
+    if lay[0] == "call":
+        d = lay[2]
+        if d in ("core::alloc::Layout::for_value_raw", "core::alloc::Layout::for_value") and lay[3]:
+            return lay[3][0] == box
+        if d == "core::alloc::Layout::new":
+            return True
+    return False
 
 
 def is_box_ptr(e, eng):
